@@ -611,7 +611,9 @@ class Executor(ExprMixin, CallMixin):
             # `f(obj.field)` passes the *value* of the field: the callee can mutate the object that value
             # refers to (if any), never rebind obj.field itself
             e0 = e
-            while isinstance(e, ast.Subscript):      # obj.field[i] / obj.field[a:b]: derived from the field's value
+            # obj.field[i] / obj.field[a:b] / obj.field[i].attr: derived from the field's value -- descend to the
+            # first access on the base name
+            while isinstance(e, (ast.Subscript, ast.Attribute)) and not (isinstance(e, ast.Attribute) and isinstance(e.value, ast.Name)):
                 e = e.value
             if isinstance(e, ast.Attribute) and isinstance(e.value, ast.Name):
                 v = st.lookup(e.value.id)
